@@ -173,7 +173,33 @@ tokens:
 				map[string]int{"lines": len(want), "decoded": len(docs)})
 		}
 	}
-	if err != nil && !hasBad && !hasLong {
+	// a line that differs from its predecessor only in the TYPE of a metric (an integer outgrowing 32 bits) is refused by
+	// the collector: a loud failure, which the property allows; what it forbids is a nil error with other values
+	typeChange := false
+	for i := 1; i < len(parsed); i++ {
+		a, ea := parseDocStrict(unhx(parsed[i-1]))
+		b, eb := parseDocStrict(unhx(parsed[i]))
+		if ea != nil || eb != nil {
+			continue
+		}
+		la, lb := leavesOf(a, nil, false, ""), leavesOf(b, nil, false, "")
+		if len(la) != len(lb) {
+			continue
+		}
+		same, retyped := true, false
+		for k := range la {
+			if strings.Join(la[k].Path, "\x00") != strings.Join(lb[k].Path, "\x00") {
+				same = false
+			}
+			if la[k].Tag != lb[k].Tag {
+				retyped = true
+			}
+		}
+		if same && retyped {
+			typeChange = true
+		}
+	}
+	if err != nil && !hasBad && !hasLong && !typeChange {
 		o.violation(line, "a well-formed stream was rejected", err.Error())
 	}
 	o.nontrivial(line)
@@ -274,6 +300,8 @@ func streamJSON(o *Out, rng *rand.Rand, thorough bool, _ []string) {
 			kids = []*Node{i64n("a", 1<<40+k), dbl("f", uint64(0x4024000000000000+k)), {Key: "s", Tag: 0x02, Raw: append(u32(2), 'x', 0)}, {Key: "ok", Tag: 0x08, Raw: []byte{byte(k & 1)}}}
 		case 1:
 			kids = []*Node{i64n("a", 1<<41+k), sub("n", i64n("x", 1<<42+k), i64n("y", 1<<43-k))}
+		case 4: // a counter around 2^31: JSON integers below 2^31 are read as int32, above as int64 (a type-only change)
+			kids = []*Node{i64n("cnt", 2147483645+k), i64n("b", 5+k)}
 		case 3: // schema 1 with the fields of its sub-document in the other order
 			kids = []*Node{i64n("a", 1<<41+k), sub("n", i64n("y", 1<<43-k), i64n("x", 1<<42+k))}
 		default:
@@ -288,17 +316,21 @@ func streamJSON(o *Out, rng *rand.Rand, thorough bool, _ []string) {
 	for i := 0; i < n; i++ {
 		L := 1 + rng.Intn(14)
 		var toks []string
-		schema := rng.Intn(4)
+		schema := rng.Intn(5)
+		usedCross := false // a type-only change is in the stream: its outcome depends on where flushes fall (DESIGN section 4, C19): no ticks
 		bad := -1
 		if rng.Intn(3) == 0 {
 			bad = rng.Intn(L)
 		}
 		for k := 0; k < L; k++ {
 			if rng.Intn(6) == 0 {
-				schema = rng.Intn(4) // schema change
+				schema = rng.Intn(5) // schema change
 			}
 			if (schema == 1 || schema == 3) && rng.Intn(3) == 0 {
 				schema = 4 - schema // the same fields, the sub-document's in the other order
+			}
+			if schema == 4 {
+				usedCross = true
 			}
 			tok := hx(mkDoc(schema, int64(k)))
 			if k == bad {
@@ -314,14 +346,14 @@ func streamJSON(o *Out, rng *rand.Rand, thorough bool, _ []string) {
 			toks = append(toks, tok)
 		}
 		flush := 0
-		if rng.Intn(4) == 0 {
+		if rng.Intn(4) == 0 && !usedCross {
 			flush = 1 + rng.Intn(3)
 		}
 		if rng.Intn(3) == 0 {
 			toks = append(toks, "NOEOL")
 		}
 		run(o, fmt.Sprintf("json %d %d | %s", 1+rng.Intn(6), flush, strings.Join(toks, " ")))
-		if i%3 == 0 {
+		if i%3 == 0 && !usedCross {
 			// the same text delivered to files, with flushes while the stream is open
 			run(o, fmt.Sprintf("json %d %d files | %s", 1+rng.Intn(6), 1+rng.Intn(3), strings.Join(toks, " ")))
 		}
